@@ -241,4 +241,83 @@ Proof.
     + constructor; [apply assocB_none_notin; exact E|exact H2].
     + unfold Nlen in *. cbn [length]. lia.
 Qed.
+
+(* ... for every reachable cache *)
+Hypothesis HL : 0 < CACHE_LIMIT.
+
+Lemma cache0_small : cache_small cache0.
+Proof. repeat split; cbn [cache0 c_nodes c_blocks map]; try constructor. unfold Nlen. cbn [length]. lia. Qed.
+Lemma reopen_small c : cache_small c -> cache_small (c_reopen c).
+Proof. intros H. exact H. Qed.
+
+Lemma c_search_loop_small q qs qe : forall fuel c queue, cache_small c ->
+  cache_small (snd (c_search_loop fuel big bs c queue q qs qe)).
+Proof.
+  induction fuel as [|f IH]; intros c queue Hc; [exact Hc|].
+  destruct queue as [|off rest]; [exact Hc|]. cbn [c_search_loop].
+  pose proof (c_read_node_small c off Hc) as Hc1.
+  destruct (c_read_node big bs c off) as [r c1]. cbn [snd] in Hc1.
+  destruct r as [[items|items]|e| |]; cbn [snd]; auto.
+  specialize (IH c1 rest Hc1). destruct (c_search_loop f big bs c1 rest q qs qe) as [r2 c2]. cbn [snd] in IH.
+  destruct r2; exact IH.
+Qed.
+Lemma c_search_blocks_small c root chrom s e : cache_small c -> cache_small (snd (c_search_blocks i bs c root chrom s e)).
+Proof.
+  intros Hc. unfold c_search_blocks. pose proof (c_search_loop_small chrom s e (S (length bs)) c [root] Hc) as H.
+  destruct (c_search_loop (S (length bs)) big bs c [root] chrom s e) as [r c1]. destruct r; exact H.
+Qed.
+Lemma c_collect_with_small {X} (dec : list N -> res (option (list X))) : forall l c, cache_small c ->
+  cache_small (snd (c_collect_with infl dec i bs c l)).
+Proof.
+  induction l as [|b r IH]; intros c Hc; [exact Hc|]. cbn [c_collect_with].
+  pose proof (c_block_data_small c b HL Hc) as Hc1.
+  destruct (c_block_data infl i bs c b) as [rd c1]. cbn [snd] in Hc1.
+  destruct rd as [d|e| |]; cbn [snd]; auto.
+  destruct (dec d) as [a|e| |]; cbn [snd]; auto.
+  specialize (IH c1 Hc1). destruct (c_collect_with infl dec i bs c1 r) as [rr c2]. destruct rr; exact IH.
+Qed.
+Lemma c_bw_interval_small c cn s e : cache_small c -> cache_small (snd (c_bw_interval infl bs i c cn s e)).
+Proof.
+  intros Hc. unfold c_bw_interval. destruct (chrom_id i cn); cbn [snd]; auto.
+  destruct (cir_tree_root big bs (h_full_index_off (i_hdr i))); cbn [snd]; auto.
+  pose proof (c_search_blocks_small c x0 x s e Hc) as Hc1.
+  destruct (c_search_blocks i bs c x0 x s e) as [rb c1]. cbn [snd] in Hc1.
+  destruct rb; cbn [snd]; auto. apply c_collect_with_small. exact Hc1.
+Qed.
+Lemma c_bw_values_small c cn s e : cache_small c -> cache_small (snd (c_bw_values infl bs i c cn s e)).
+Proof.
+  intros Hc. unfold c_bw_values. destruct (e <? s); [exact Hc|].
+  pose proof (c_bw_interval_small c cn s e Hc) as H. destruct (c_bw_interval infl bs i c cn s e) as [r c1].
+  destruct r; exact H.
+Qed.
+Lemma c_zoom_interval_small c cn s e lvl : cache_small c -> cache_small (snd (c_zoom_interval infl bs i c cn s e lvl)).
+Proof.
+  intros Hc. unfold c_zoom_interval. destruct (find (fun z => zh_res z =? lvl) (i_zooms i)) as [zh|]; [|exact Hc].
+  destruct (cir_tree_root big bs (zh_index zh)); cbn [snd]; auto.
+  destruct (chrom_id i cn); cbn [snd]; auto.
+  pose proof (c_search_blocks_small c x x0 s e Hc) as Hc1.
+  destruct (c_search_blocks i bs c x x0 s e) as [rb c1]. cbn [snd] in Hc1.
+  destruct rb; cbn [snd]; auto. apply c_collect_with_small. exact Hc1.
+Qed.
+Theorem qstep_small c q : cache_small c -> cache_small (snd (qstep infl bs i c q)).
+Proof.
+  intros Hc. destruct q as [cn s e|cn s e|cn s e lvl]; cbn [qstep].
+  - pose proof (c_bw_interval_small c cn s e Hc) as H. destruct (c_bw_interval infl bs i c cn s e). exact H.
+  - pose proof (c_bw_values_small c cn s e Hc) as H. destruct (c_bw_values infl bs i c cn s e). exact H.
+  - pose proof (c_zoom_interval_small c cn s e lvl Hc) as H. destruct (c_zoom_interval infl bs i c cn s e lvl). exact H.
+Qed.
+Theorem qrun_small : forall qs c, cache_small c -> cache_small (snd (qrun infl bs i c qs)).
+Proof.
+  induction qs as [|q r IH]; intros c Hc; [exact Hc|]. cbn [qrun].
+  pose proof (qstep_small c q Hc) as Hc1. destruct (qstep infl bs i c q) as [a c1]. cbn [snd] in Hc1.
+  specialize (IH c1 Hc1). destruct (qrun infl bs i c1 r) as [rest c2]. exact IH.
+Qed.
+(* after any history, and after reopening and any second history *)
+Theorem reachable_small qs1 qs2 :
+  cache_small (snd (qrun infl bs i cache0 qs1))
+  /\ cache_small (snd (qrun infl bs i (c_reopen (snd (qrun infl bs i cache0 qs1))) qs2)).
+Proof.
+  pose proof (qrun_small qs1 cache0 cache0_small) as H1. split; [exact H1|].
+  apply qrun_small. apply reopen_small. exact H1.
+Qed.
 End Inv.
